@@ -80,6 +80,11 @@ func genC18(seed int64, tier string) *Plan {
 	for i := 0; i < p.Cfg["nodes"]; i++ {
 		p.Steps = append(p.Steps, Step{K: "node", A: r.IntN(64), B: r.IntN(3)})
 	}
+	// updates: a document that was updated gets a new identifier on import, so relations must follow the mapping
+	p.Cfg["upd"] = pick(r, []int{0, 1, 2, 3, 5})
+	for i := 0; i < p.Cfg["upd"]; i++ {
+		p.Steps = append(p.Steps, Step{K: "upd", A: r.IntN(4), B: r.IntN(64), C: r.IntN(64)})
+	}
 	p.Steps = append(p.Steps, Step{K: "import", D: r.IntN(64)})
 	return p
 }
@@ -139,7 +144,7 @@ func runC18(p *Plan, res *Result) {
 		src.fail("%v", err)
 		return
 	}
-	var userIDs, nodeIDs []string
+	var userIDs, nodeIDs, bookIDs []string
 	for i, st := range p.Steps {
 		setRandStep(fmt.Sprintf("step|%d", i))
 		switch st.K {
@@ -171,10 +176,46 @@ func runC18(p *Plan, res *Result) {
 			if st.C != 0 && len(userIDs) > 0 {
 				author = fmt.Sprintf("%q", userIDs[mod(st.B, len(userIDs))])
 			}
-			_, errs := s.GQL(fmt.Sprintf(`mutation { create_Book(input: {title: "b%d", rating: %d.25, author: %s}) { _docID } }`, i, mod(st.A, 9), author))
+			data, errs := s.GQL(fmt.Sprintf(`mutation { create_Book(input: {title: "b%d", rating: %d.25, author: %s}) { _docID } }`, i, mod(st.A, 9), author))
 			if len(errs) > 0 {
 				src.fail("create book: %v", errs)
 				return
+			}
+			bookIDs = append(bookIDs, fmt.Sprint(rows(data, "create_Book")[0]["_docID"]))
+		case "upd":
+			var q string
+			switch st.A {
+			case 0:
+				if len(userIDs) > 0 {
+					q = fmt.Sprintf(`mutation { update_User(docID: %q, input: {age: %d}) { _docID } }`, userIDs[mod(st.B, len(userIDs))], 100+st.C)
+				}
+			case 1:
+				if len(bookIDs) > 0 {
+					author := "null"
+					if st.C&1 == 1 && len(userIDs) > 0 {
+						author = fmt.Sprintf("%q", userIDs[mod(st.C>>1, len(userIDs))])
+					}
+					q = fmt.Sprintf(`mutation { update_Book(docID: %q, input: {rating: %d.75, author: %s}) { _docID } }`, bookIDs[mod(st.B, len(bookIDs))], mod(st.C, 9), author)
+				}
+			case 2:
+				if len(nodeIDs) > 0 {
+					q = fmt.Sprintf(`mutation { update_Node(docID: %q, input: {weight: %d}) { _docID } }`, nodeIDs[mod(st.B, len(nodeIDs))], 100+st.C)
+				}
+			default:
+				// a node that is its own parent (refused when the node already is somebody's parent)
+				if len(nodeIDs) > 0 {
+					id := nodeIDs[mod(st.B, len(nodeIDs))]
+					if _, errs := s.GQL(fmt.Sprintf(`mutation { update_Node(docID: %q, input: {parent: %q}) { _docID } }`, id, id)); len(errs) == 0 {
+						res.Stats["self_references"]++
+					}
+				}
+			}
+			if q != "" {
+				if _, errs := s.GQL(q); len(errs) > 0 {
+					src.fail("update %s: %v", q, errs)
+					return
+				}
+				res.Stats["updates_before_export"]++
 			}
 		case "node":
 			parent := "null"
